@@ -55,8 +55,19 @@ func (watcher *RequestWatcher) GetRequest(requestID string) (*Request, bool) {
 	return req, found
 }
 
-func (watcher *RequestWatcher) AddRequest(req *Request) {
-	watcher.requestCount.Add(1)
+// AddRequest registers the request unless maxCount requests are already registered.
+// The test and the increment are one atomic step, so requests that pass the slot
+// check at the same time can never register more than maxCount of them.
+func (watcher *RequestWatcher) AddRequest(req *Request, maxCount int64) bool {
+	for {
+		count := watcher.requestCount.Load()
+		if count >= maxCount {
+			return false
+		}
+		if watcher.requestCount.CompareAndSwap(count, count+1) {
+			break
+		}
+	}
 
 	watcher.requestsMapMutex.Lock()
 	watcher.requests[req.GetID()] = req
@@ -65,6 +76,7 @@ func (watcher *RequestWatcher) AddRequest(req *Request) {
 	watcher.expireMapMutex.Lock()
 	watcher.requestsExpireAt[req.GetID()] = req.GetExpireAt()
 	watcher.expireMapMutex.Unlock()
+	return true
 }
 
 func (watcher *RequestWatcher) RemoveFromWatchList(requestID string) {
